@@ -131,6 +131,16 @@ def checkDump (st : St) (d : DumpObs) : Option String :=
 
 def total (xs : List Nat) : Nat := xs.foldl (· + ·) 0
 
+def judgeDump (st : St) (codec shard sh : String) (rest : List String) : St × String :=
+  match shard.toNat?, (field sh "shard").bind String.toNat?, parseDump rest {} with
+  | some shard, some sh', some d =>
+    let st' := { st with codec := codec, shard := shard, dumped := true, loaded := none, fresh := false, mutated := false }
+    if shard != sh' then (st', "reject shard-echo")
+    else match checkDump st' d with
+      | some m => (st', "reject " ++ m)
+      | none => (st', "ok")
+  | _, _, _ => (st, "reject bad-dump-observation")
+
 def step (st : St) (ts : List String) : St × String :=
   let (op, out) := splitArrow ts
   match op, out with
@@ -153,15 +163,12 @@ def step (st : St) (ts : List String) : St × String :=
       | some st' => (st', "ok")
       | none => (st, "reject bad-op")
     | none => (st, "reject bad-op")
-  | ["dump", codec, _batch, shard], "ok" :: sh :: _gc :: rest =>
-    match shard.toNat?, (field sh "shard").bind String.toNat?, parseDump rest {} with
-    | some shard, some sh', some d =>
-      let st' := { st with codec := codec, shard := shard, dumped := true, loaded := none, fresh := false, mutated := false }
-      if shard != sh' then (st', "reject shard-echo")
-      else match checkDump st' d with
-        | some m => (st', "reject " ++ m)
-        | none => (st', "ok")
-    | _, _, _ => (st, "reject bad-dump-observation")
+  | ["dump", codec, _batch, shard], "ok" :: sh :: _gc :: rest => judgeDump st codec shard sh rest
+  -- a dump that was interrupted (crash / read fault) and resumed is judged exactly like an uninterrupted one
+  | "idump" :: codec :: _batch :: shard :: _, "ok" :: sh :: _gc :: rest => judgeDump st codec shard sh rest
+  -- the property allows a resume to refuse (e.g. the publish-before-record window); there is then no dump to load
+  | "idump" :: _, "stuck" :: _ => ({ st with dumped := false, loaded := none, fresh := false }, "ok")
+  | "idump" :: _, ["bad-db"] => ({ st with dumped := false, loaded := none, fresh := false }, "ok")
   | ["dump", _, _, _], "err" :: cls => (st, "reject dump-failed " ++ " ".intercalate cls)
   | ["load", _], ["ok", g, n, e] =>
     match (field g "g").bind String.toNat?, (field n "n").bind String.toNat?, (field e "e").bind String.toNat? with
@@ -171,6 +178,9 @@ def step (st : St) (ts : List String) : St × String :=
       if g != st.src.length || n != en || e != ee then (st, s!"reject load-counts g={g} n={n} e={e} expected g={st.src.length} n={en} e={ee}")
       else ({ st with mutated := false, fresh := false }, "ok")
     | _, _, _ => (st, "reject bad-load-observation")
+  | ["load", _], ["bad-op"] => if st.dumped then (st, "reject bad-output bad-op") else (st, "ok")
+  | ["loaded"], ["none"] => if st.dumped then (st, "reject loaded-missing") else (st, "ok")
+  | ["verify", _], ["bad-op"] => if st.dumped then (st, "reject bad-output bad-op") else (st, "ok")
   | ["load", _], "err" :: cls => (st, "reject load-failed " ++ " ".intercalate cls)
   | ["loaded"], "ok" :: rest =>
     match parseLoaded rest [] with
